@@ -17,7 +17,7 @@ sync_env() {
   find $ME/verif/harness -mindepth 1 -maxdepth 1 ! -name target -exec rm -rf {} + 2>/dev/null
   git -C /verif archive HEAD -- . ':!evidence' ':!seeded' | tar -x -C $ME/verif
   mkdir -p $ME/verif/evidence $ME/verif/replays $ME/verif/.cache
-  sed -i "s#/repo/#$ME/repo/#g" $ME/verif/harness/Cargo.toml $ME/verif/harness/src/errcodes.rs $ME/verif/check $ME/verif/setup.sh
+  sed -i "s#/repo/#$ME/repo/#g" $ME/verif/harness/Cargo.toml $ME/verif/harness-miri/Cargo.toml $ME/verif/harness/src/errcodes.rs $ME/verif/check $ME/verif/setup.sh
   if [ ! -d $ME/verif/harness/target ]; then cp -r /verif/harness/target $ME/verif/harness/target; fi
 }
 case "${1:-}" in
